@@ -2,11 +2,12 @@ package checks
 
 import (
 	"fmt"
+	"os"
 	"path/filepath"
-	"time"
 	"sort"
 	"strings"
 	"testing"
+	"time"
 
 	"github.com/awslabs/ar-go-tools/verifharness/core"
 	"github.com/awslabs/ar-go-tools/verifharness/gogen"
@@ -27,6 +28,7 @@ type flowChecker struct {
 	lastKey         string
 	lastOuts        []*core.TaintOutcome
 	nslow           int
+	ncollect        int
 	worker          *core.Worker
 }
 
@@ -122,6 +124,15 @@ func (fc *flowChecker) judge(t *rapid.T, c *flowCase, res *native.Result) {
 			sort.Strings(missing)
 			what := fmt.Sprintf("flows observed in a native execution are not reported under %s: %s (reported: %s)", v.Name,
 				strings.Join(missing, ","), strings.Join(out.PairList(), ","))
+			if cd := os.Getenv("VERIF_COLLECT"); cd != "" {
+				// triage mode: keep every failing case and go on
+				fc.ncollect++
+				d := filepath.Join(cd, fmt.Sprintf("%s-%d-%d", fc.id, env.Shard, fc.ncollect))
+				_ = writeFlowViolation(fc.id, strings.ToLower(fc.id), c, v, what, obs, "missed-"+featureSignature(c.Prog))
+				_ = os.Rename(filepath.Join(env.Out, fmt.Sprintf("viol-%s-%d", fc.id, env.Shard)), d)
+				_ = core.WriteFiles(d, map[string]string{"what.txt": what + "\n" + strings.Join(c.Prog.FeatList(), " ") + "\n"})
+				continue
+			}
 			msg := writeFlowViolation(fc.id, strings.ToLower(fc.id), c, v, what, obs, "missed-"+featureSignature(c.Prog))
 			t.Fatalf("%s", msg)
 		}
